@@ -19,7 +19,7 @@ CLAIMED = {
    text=('Theorems for all D and all series over any field: mulS is the Cauchy product, divS the unique solution of z*y=x, commutativity/associativity/distributivity, (x/y)*y=x; over R the '
          'coefficients are the Taylor coefficients of the product/quotient curve; dtype calculus (complex in => complex out for every operator x operand kind x order) as a finite table. '
          'Broadcasting and operand-kind dispatch are modelled (L2) and tied by the correspondence run over all kinds/orders/shape pairs/in-place and power forms; operator-level value law for UTPM o UTPM with NumPy broadcasting of the '
-         'coefficient shapes is a theorem (result element (p, idx), order d = Taylor coefficient of the product/quotient/sum of the operand curves at the broadcast positions); constant operands (scalar, ndarray on either side), '
+         'coefficient shapes is a theorem (result element (p, idx), order d = Taylor coefficient of the product/quotient/sum of the operand curves at the broadcast positions), and so is UTPM o scalar (utpm_scalar_mul_div_value, utpm_scalar_add_sub_value: c enters every coefficient for * and /, only order 0 for + and -); ndarray constant operands (on either side), '
          'in-place forms and powers are model + correspondence only (partial).')),
  'C10': dict(
    technique='Lean 4 theorems (zeroth coefficient of every kernel, comparison = all over zeroth coefficients, shape laws) + NumPy reference oracle',
@@ -49,8 +49,8 @@ CLAIMED = {
  'C16': dict(
    technique='Lean 4 theorems (iteratedDeriv n f x = closed form, by the chain "order n+1 is the derivative of order n") + correspondence + contour-integral oracle',
    text=('Theorems for every order n and every point of the domain: iteratedDeriv n f x equals the closed form of the model for exp, exp2, expm1, log, log2/log10, log1p, sqrt, square, negative, reciprocal, '
-         'sin, cos, sinh, cosh, arctanh; gammaln/psi/polygamma and hyperu relative to the first-order relations of their SciPy leaves; the piecewise functions (rint, fix, floor, ceil, trunc, sign: every locally constant function; absolute) away from jumps and kinks. arctan, arcsin, arccos, arcsinh, arccosh, erf, erfi '
-         'are modelled exactly (Gaussian rationals / finite sums) and tied by correspondence plus an independent Cauchy-integral oracle on the implementation, without an all-n theorem yet (partial).')),
+         'sin, cos, sinh, cosh, arctanh, erf and erfi (finite Hermite-type sums, for the concrete c*int_0^x exp(-+s^2) ds and every antiderivative of c exp(-+y^2)); gammaln/psi/polygamma and hyperu relative to the first-order relations of their SciPy leaves; the piecewise functions (rint, fix, floor, ceil, trunc, sign: every locally constant function; absolute) away from jumps and kinks. arctan, arcsin, arccos, arcsinh, arccosh '
+         'are modelled exactly (Gaussian rationals) and tied by correspondence plus an independent Cauchy-integral oracle on the implementation, without an all-n theorem yet (partial).')),
  'C03': dict(
    technique='Lean 4 theorem (cell-level tape: reverse sweep is the adjoint of the tangent sweep, any commutative ring, overwrites) + local adjoint lemmas + adjoint-identity oracle',
    text=('Theorem for every tape, heap, tangent and seed over any commutative ring (A = R[t]/(t^D)): <rev tape h seed, dh> = <seed, tan tape h dh>, with in-place overwrites (also buf[i]=buf[i]); local adjoint '
